@@ -364,6 +364,16 @@ impl Process {
         if let Some(prev) = prev {
             task.set_prev(Some(prev.id.clone()));
         }
+        #[cfg(feature = "verif")]
+        crate::verif::push(crate::verif::Event::Create {
+            seq: crate::verif::next_seq(),
+            pid: self.id.clone(),
+            tid: tid.clone(),
+            nid: node.id().to_string(),
+            kind: node.kind().to_string(),
+            prev: task.prev(),
+            level: node.level,
+        });
         self.push_task(task.clone());
         task
     }
